@@ -7,6 +7,7 @@ reachable queue / every operation history — no bound on length, keys or values
 import NexoVerif.Model.PQ
 import NexoVerif.Lemmas.PQLemmas
 import NexoVerif.Lemmas.HeapRefine
+import NexoVerif.Lemmas.PQFree
 import NexoVerif.Extracted
 
 namespace NexoVerif.PQ
@@ -242,6 +243,16 @@ theorem heap_code_refines_the_keyed_queue (ops : List HOp) :
   exact ⟨s.abs, fun k v => (s.abs.insert s.inv k v).2, (s.abs.pull s.inv s.distinct).2,
     fun i e => (s.abs.extract s.inv i e).2, (s.abs.peek s.inv s.distinct).1, (s.abs.peek s.inv s.distinct).2,
     s.abs.er.symm⟩
+
+/-- **keyed_queue_never_panics** — in every reachable state the free list is a proper list (no node twice) of free
+nodes inside the slab, so `insert` never finds a used node or an index outside the slab at its head; together with the
+cross-index invariant (no access of `pull`, `extract` or the loops is out of range or hits the wrong kind of node):
+no history of inserts, pulls and extractions — with any keys, live, stale or forged — makes the queue panic, in the
+mid-level model and, by the refinement, in the transliterated code. -/
+theorem keyed_queue_never_panics (ops : List HOp) :
+    (IPQ.new.runOps (ops.map HOp.toIOp)).err = false ∧ (HQ.new.runOps ops).err = false := by
+  have h := PQ.never_panics_aux (ops.map HOp.toIOp) IPQ.new PQ.freeOK_new rfl
+  exact ⟨h, by rw [← (Sim.new.runOps ops).abs.er]; exact h⟩
 
 /-- **sift_loops_keep_every_other_entry** — `sift_up` (`sift_down`) started with a vacant spot and the item kept
 aside changes what no slab node stands for, except the node of that item, which then stands for the item's key and
